@@ -19,5 +19,11 @@ CHECKS = {
     note='Trusted: Coq kernel + vm_compute; float32 rounding of the implementation is NOT modelled: codes may differ by one only where the exact pre-rounding value is within 2^-18 (relative) of a rounding boundary (counted in the evidence); torch.round/floor/clamp/isclose are modelled (rne/Qfloor/qclamp/|s|<=1e-8); asymmetric weight mode and PACTActSigned are outside the property and the model.',
     technique='Coq proof over Q (floor/round-half-even lemmas, lra/nra) + model/impl differential run via vm_compute with exact boundary sweep',
     design_ref='§C13'),
+ 'C20': dict(
+    category='proof',
+    text='Coq theorems (Props/C20.v): for EVERY cost function, number of precisions, initial count vector and skipped (0-bit) set, the two searches of optimize_prec_assignment keep a configuration that costs no more than the initial one and is reached by upward moves only (total preserved, every upper tail sum non-decreasing); the reassignment step meets every count and assigns every channel, proved by exhaustive evaluation over all abstract inputs (current assignment x channel rankings x compositions) for sizes up to 4x3 and 2x4 (bound stated in the theorem, PARTIAL for larger sizes). Tied to /repo by differential runs of _reassign_precisions (all compositions on sizes up to 3x4, seeded up to 4x8) and of full optimize_prec_assignment runs on per-channel MPS models with the NE16 cost, the implementation\'s own _compute_cost table being fed to the model.',
+    note='Trusted: Coq kernel + vm_compute; tie-free score matrices (torch.argsort is not stable); refine correspondence only for power-of-two channel counts (float32 fraction drift otherwise; oracle still applied); NE16 cost values come from the implementation (input of the model). Open findings: non-ascending precision tuples, layers sharing a weight precision selector (KNOWN_FINDINGS.json). Channel-level no-demotion is checked by the oracle, at count level (majorization) by the theorem.',
+    technique='Coq proof (induction over the search loops for any cost function; bounded exhaustive vm_compute sweep for the reassignment) + model/impl differential run',
+    design_ref='§C20'),
 }
 PENDING_REASON = 'check not built yet in this revision of /verif (planned: DESIGN.md §8); not claimed until its theorem + correspondence run exist'
